@@ -5,6 +5,7 @@
 package refstore
 
 import (
+	"strconv"
 	"context"
 	"fmt"
 	"strings"
@@ -208,12 +209,12 @@ func (b *Body) Field(r node.FieldRequest, hnd *node.ValueHandle) error {
 		} else if l, isList := hnd.Val.(val.Listable); isList && b.ListSep != "" {
 			var parts []string
 			for i := 0; i < l.Len(); i++ {
-				parts = append(parts, l.Item(i).String())
+				parts = append(parts, ValText(l.Item(i)))
 			}
 			s := strings.Join(parts, b.ListSep)
 			d.Leaf = &s
 		} else {
-			s := hnd.Val.String()
+			s := ValText(hnd.Val)
 			d.Leaf = &s
 		}
 		return nil
@@ -398,3 +399,14 @@ func (l *List) Notify(r node.NotifyRequest) (node.NotifyCloser, error) {
 func (l *List) Peek(sel *node.Selection, consumer interface{}) interface{} { return nil }
 func (l *List) Context(sel *node.Selection) context.Context              { return sel.Context }
 func (l *List) Release(sel *node.Selection)                              {}
+
+// ValText is the text the store keeps for a value: String() of the value, except that a decimal64 keeps
+// every digit (Decimal64.String() rounds to six places, which would hide a loss of precision).
+func ValText(v val.Value) string {
+	if v.Format() == val.FmtDecimal64 {
+		if f, ok := v.Value().(float64); ok {
+			return strconv.FormatFloat(f, 'f', -1, 64)
+		}
+	}
+	return v.String()
+}
